@@ -1,6 +1,7 @@
 import Dcg.Proofs.Imports
 import Dcg.Proofs.ImportLedger
 import Dcg.Proofs.Cover
+import Dcg.Proofs.CoverOp
 import Dcg.Proofs.Types
 import Dcg.Proofs.ClassTie
 import Dcg.Model.FieldText
@@ -170,6 +171,72 @@ theorem imports_cover_hint_typing (o : Opts) (ho : o.unionOp = false) (t : DT) (
     ∀ n ∈ namesOf (hintE o t).1, n ∈ typingNames → n ∈ impNames (allImports o true t) :=
   ⟨by rw [(Dcg.Proofs.Types.typeHint_typing o ho t hw).1],
    imports_cover_hint_partial o t hc (Dcg.Proofs.Types.flagsAgree_typing o ho t hw)⟩
+
+/-- THE `|` SPELLING (`use_union_operator = True`), names plain (`wfTree`): the flag hypothesis is
+discharged by `typeHint_operator` (C13, `re.split` at every `|`): the text `type_hint` writes is the
+printed form of the structural rendering, the `is_optional` flag it leaves at every node is the
+structural one (`flagsAgree_operator`, by induction on the tree), so every typing name the text
+writes is among `DataType.all_imports`. -/
+theorem imports_cover_hint_operator (o : Opts) (ho : o.unionOp = true) (t : DT) (hw : wfTree t = true)
+    (hc : coverOK o t = true) :
+    (typeHint o t).1 = Dcg.Sem.Typing.print (hintE o t).1 ∧
+    ∀ n ∈ namesOf (hintE o t).1, n ∈ typingNames → n ∈ impNames (allImports o true t) :=
+  ⟨by rw [(Dcg.Proofs.HintOp.typeHint_operator o ho t hw).1],
+   imports_cover_hint_partial o t hc (Dcg.Proofs.CoverOp.flagsAgree_operator o ho t hw)⟩
+
+/-- EVERY option vector (both union spellings x the four container spellings): for a tree with
+plain names the flags agree — `flagsAgree` is no longer a hypothesis anywhere. -/
+theorem flags_agree_all_spellings (o : Opts) (t : DT) (hw : wfTree t = true) : flagsAgree o t = true := by
+  cases ho : o.unionOp with
+  | false => exact Dcg.Proofs.Types.flagsAgree_typing o ho t hw
+  | true => exact Dcg.Proofs.CoverOp.flagsAgree_operator o ho t hw
+
+/-- non-vacuity (operator): `Dict[str, List[int | Literal['a'] | None]] | None`, the four container
+spellings — the side conditions hold and the flag left at the inner union is the structural one -/
+example : ∀ s g : Bool,
+    let o : Opts := { unionOp := true, stdColl := s, genericCont := g }
+    let t : DT := .mk { isOptional := true, isDict := true } (some (.mk { ty := sStr } none []))
+      [.mk { isList := true } none [.mk {} none [.mk { ty := ['i', 'n', 't'], isOptional := true } none [],
+         .mk { literals := [['\'', 'a', '\'']] } none []]]]
+    wfTree t = true ∧ coverOK o t = true ∧ flagAfter o t = true ∧
+    Dcg.Sem.Typing.sLiteral ∈ namesOf (hintE o t).1 ∧ IMPORT_LITERAL ∈ allImports o true t := by
+  decide
+
+/-- `use_union_operator = True`, NOTHING NAMED `Optional` / `Union` IS USED AND NONE IS EMITTED: for a
+tree with plain names whose input names are not typing names (`coverOK`) and no node of which
+carries an own `import_` named so (`ouFree`): (1) the rendered hint writes neither the name
+`Optional` nor `Union`, (2) `DataType.all_imports` yields no import of that name, whatever the
+flags, (3) neither does the field level (`DataModelFieldBase.imports`: `IMPORT_OPTIONAL` is appended
+only `and not use_union_operator`; nullable / not required / `type_has_null` do not matter). Nothing
+the `X | None` text needs is missing: (1) follows from `imports_cover_hint_operator` and (2). -/
+theorem operator_no_optional_union (o : Opts) (ho : o.unionOp = true) (t : DT) (hw : wfTree t = true)
+    (hc : coverOK o t = true) (hf : Dcg.Proofs.CoverOp.ouFree t = true) (fb : FieldBits) :
+    (∀ n ∈ namesOf (hintE o t).1, Dcg.Proofs.CoverOp.ouName n = false) ∧
+    (∀ i ∈ allImports o true t, Dcg.Proofs.CoverOp.ouName i.name = false) ∧
+    (∀ i ∈ fieldImports o fb t, Dcg.Proofs.CoverOp.ouName i.name = false) := by
+  have h2 := Dcg.Proofs.CoverOp.operator_imports_no_typing_union (flagAfter o) o ho t hf true
+  refine ⟨?_, h2, Dcg.Proofs.CoverOp.fieldImports_operator_no_typing_union o ho fb t hf⟩
+  intro n hn
+  cases hou : Dcg.Proofs.CoverOp.ouName n with
+  | false => rfl
+  | true =>
+    have hty : n ∈ typingNames := by
+      simp only [Dcg.Proofs.CoverOp.ouName, Bool.or_eq_true, beq_iff_eq] at hou
+      rcases hou with rfl | rfl <;> decide
+    have := (imports_cover_hint_operator o ho t hw hc).2 n hn hty
+    simp only [impNames, List.mem_map] at this
+    obtain ⟨i, hi, rfl⟩ := this
+    rw [h2 i hi] at hou; cases hou
+
+/-- non-vacuity: an optional union inside a list of an optional field — `List[int | str | None] | None`,
+not required: no `Optional`, no `Union` among the field's imports; without the operator both are -/
+example :
+    let t : DT := .mk { isList := true, isOptional := true } none [.mk { isOptional := true } none
+      [.mk { ty := ['i', 'n', 't'] } none [], .mk { ty := sStr } none []]]
+    wfTree t = true ∧ coverOK { unionOp := true } t = true ∧ Dcg.Proofs.CoverOp.ouFree t = true ∧
+    impNames (fieldImports { unionOp := true } {} t) = [sList] ∧
+    IMPORT_OPTIONAL ∈ fieldImports {} {} t ∧ IMPORT_UNION ∈ fieldImports {} {} t := by
+  decide
 
 /-- non-vacuity: `Optional[Dict[str, List[Union[int, Literal['a']]]]]`, all eight spellings -/
 example : ∀ o : Opts,
